@@ -71,13 +71,12 @@ Pairs(form, perm) ==
         /\ rnd' = NoneRandom
         /\ Log("Pairs", form, [j \in Names |-> perm[j]], new, TRUE)
 
-(* dict keyed by name (str) or by symbol; a partial dict keeps the other values.       *)
-(* A partial update presupposes earlier values, so it needs every parameter bound.    *)
+(* dict keyed by name (str) or by symbol; a partial dict keeps the other values.  A binding may also be built up from   *)
+(* partial dicts alone: names not mentioned yet stay Unset (nothing is evaluated before every name has a value).       *)
 Dict(form, sub) ==
     LET c == ncall + 1
         new == [k \in Names |-> IF k \in sub THEN <<c, k>> ELSE pval[k]]
     IN  /\ form \in {"dict-str", "dict-sym"}
-        /\ (sub = Names \/ AllBound)
         /\ pval' = new
         /\ given' = [k \in Names |-> IF k \in sub THEN <<c, k>> ELSE given[k]]
         /\ rnd' = [k \in Names |-> IF k \in sub THEN FALSE ELSE rnd[k]]     \* the names it mentions get numbers
@@ -173,7 +172,10 @@ RejectedBindsNothing == [][(hist' # hist /\ ~Last(hist').ok) => pval' = pval]_va
 PartialKeepsOthers ==
     [][(hist' # hist /\ Last(hist').act = "Dict") =>
           \A k \in Names : (\A j \in 1..Len(Last(hist').names) : Last(hist').names[j] # k) => pval'[k] = pval[k]]_vars
-NeverHalfBound == (\E k \in Names : pval[k] # Unset) => AllBound
+(* only partial dicts can leave a binding incomplete *)
+HalfBoundOnlyByPartialDicts ==
+    ((\E k \in Names : pval[k] # Unset) /\ ~AllBound) =>
+        \A i \in 1..Len(hist) : hist[i].ok => hist[i].act \in {"Dict", "DictRandom"}
 (* a name is re-drawn exactly while the value in force for it is a distribution's *)
 RandomIffDistribution == \A k \in Names : rnd[k] <=> pval[k][1] < 0
 (* an assignment that gives a name a number ends its re-drawing; integrations never change what a name is bound to *)
